@@ -7,7 +7,9 @@ package main
 import (
 	"fmt"
 	"go/ast"
+	"go/constant"
 	"go/token"
+	"go/types"
 
 	"golang.org/x/tools/go/cfg"
 )
@@ -18,10 +20,11 @@ type NamedAtom struct {
 }
 
 type PathInfo struct {
-	Val   map[string]bool // atoms established on the path
-	Nodes []ast.Node      // CFG nodes passed, in order
-	Exit  *cfg.Block
-	Ret   *ast.ReturnStmt // nil if control falls off the end / panics
+	Val     map[string]bool // atoms established on the path
+	Nodes   []ast.Node      // CFG nodes passed, in order
+	Exit    *cfg.Block
+	Ret     *ast.ReturnStmt // nil if control falls off the end / panics
+	Stopped ast.Node        // set when the path ended at a StopAt node
 }
 
 type literal struct {
@@ -66,12 +69,44 @@ func dnf(e ast.Expr, truth bool) [][]literal {
 	return [][]literal{{{e, truth}}}
 }
 
+// EnumOpts: StopAt ends a path at the first node satisfying it (the node is recorded in Stopped);
+// BoolVars enables constant propagation of local boolean flags along each path.
+type EnumOpts struct {
+	StopAt   func(ast.Node) bool
+	BoolVars bool
+}
+
 func (g *Graph) EnumPaths(atoms []NamedAtom, maxPaths int) ([]PathInfo, error) {
+	return g.EnumPathsOpt(atoms, maxPaths, EnumOpts{})
+}
+
+func (g *Graph) EnumPathsOpt(atoms []NamedAtom, maxPaths int, opt EnumOpts) ([]PathInfo, error) {
 	var out []PathInfo
+	info := g.F.Info()
+	boolConst := func(e ast.Expr) (bool, bool) {
+		if tv, ok := info.Types[e]; ok && tv.Value != nil && tv.Value.Kind() == constant.Bool {
+			return constant.BoolVal(tv.Value), true
+		}
+		return false, false
+	}
+	varOf := func(e ast.Expr) types.Object {
+		if id, ok := unparen(e).(*ast.Ident); ok {
+			if o, ok := info.Uses[id].(*types.Var); ok && !o.IsField() {
+				return o
+			}
+			if o, ok := info.Defs[id].(*types.Var); ok {
+				return o
+			}
+		}
+		return nil
+	}
+	type benv map[types.Object]bool
 	onStack := map[*cfg.Block]bool{}
 	var err error
-	var walk func(b *cfg.Block, val map[string]bool, nodes []ast.Node)
-	walk = func(b *cfg.Block, val map[string]bool, nodes []ast.Node) {
+	var walkE func(b *cfg.Block, val map[string]bool, nodes []ast.Node, env benv)
+	walk := func(b *cfg.Block, val map[string]bool, nodes []ast.Node) { walkE(b, val, nodes, benv{}) }
+	walkE = func(b *cfg.Block, val map[string]bool, nodes []ast.Node, env benv) {
+		walk := func(b *cfg.Block, val map[string]bool, nodes []ast.Node) { walkE(b, val, nodes, env) }
 		if err != nil {
 			return
 		}
@@ -81,7 +116,49 @@ func (g *Graph) EnumPaths(atoms []NamedAtom, maxPaths int) ([]PathInfo, error) {
 		}
 		onStack[b] = true
 		defer func() { onStack[b] = false }()
-		nodes = append(append([]ast.Node{}, nodes...), b.Nodes...)
+		nodes = append([]ast.Node{}, nodes...)
+		for _, n := range b.Nodes {
+			nodes = append(nodes, n)
+			if opt.StopAt != nil && opt.StopAt(n) {
+				out = append(out, PathInfo{Val: val, Nodes: nodes, Exit: b, Stopped: n})
+				if len(out) > maxPaths {
+					err = fmt.Errorf("more than %d paths", maxPaths)
+				}
+				return
+			}
+			if opt.BoolVars {
+				// flag := <bool const> / flag = <bool const>; anything else assigned to a tracked flag forgets it
+				var lhs, rhs []ast.Expr
+				switch s := n.(type) {
+				case *ast.AssignStmt:
+					lhs, rhs = s.Lhs, s.Rhs
+				case *ast.ValueSpec:
+					for _, id := range s.Names {
+						lhs = append(lhs, id)
+					}
+					rhs = s.Values
+				}
+				if len(lhs) > 0 {
+					ne := benv{}
+					for k, v := range env {
+						ne[k] = v
+					}
+					for i, l := range lhs {
+						o := varOf(l)
+						if o == nil {
+							continue
+						}
+						delete(ne, o)
+						if len(rhs) == len(lhs) {
+							if bv, ok := boolConst(rhs[i]); ok {
+								ne[o] = bv
+							}
+						}
+					}
+					env = ne
+				}
+			}
+		}
 		if len(b.Succs) == 0 {
 			pi := PathInfo{Val: val, Nodes: nodes, Exit: b}
 			if len(b.Nodes) > 0 {
@@ -108,6 +185,13 @@ func (g *Graph) EnumPaths(atoms []NamedAtom, maxPaths int) ([]PathInfo, error) {
 				}
 				feasible := true
 				for _, lit := range alt {
+					if opt.BoolVars {
+						if o := varOf(lit.e); o != nil {
+							if known, ok := env[o]; ok && known != lit.truth {
+								feasible = false
+							}
+						}
+					}
 					for _, na := range atoms {
 						if ok, sense := na.A.Match(g, lit.e); ok {
 							v := lit.truth == sense
